@@ -313,6 +313,20 @@ Proof.
   pose proof (filter_len_le f (firstn n l)). pose proof (firstn_le_length n l). lia.
 Qed.
 
+Lemma take_while_len_le {A} (f : A -> bool) (l : list A) : (length (take_while f l) <= length l)%nat.
+Proof. induction l as [|x r IH]; cbn; [lia|]. destruct (f x); cbn; lia. Qed.
+
+Lemma take_while_firstn_length {A} (f : A -> bool) n (l : list A) : (length (take_while f (firstn n l)) <= n)%nat.
+Proof.
+  pose proof (take_while_len_le f (firstn n l)). pose proof (firstn_le_length n l). lia.
+Qed.
+
+Lemma take_while_in {A} (f : A -> bool) (l : list A) x : In x (take_while f l) -> In x l /\ f x = true.
+Proof.
+  induction l as [|y r IH]; cbn; [intros []|]. destruct (f y) eqn:E; [|intros []].
+  intros [<-|H]; [auto|]. destruct (IH H). auto.
+Qed.
+
 Lemma div_mul_le a b : b <> 0 -> (a / b) * b <= a.
 Proof. intros. lia. Qed.
 
@@ -382,9 +396,9 @@ Proof.
   apply uuid_len_cases in Hu.
   assert (forall x, 1 + (1 + x) = 2 + x) as R by (intros; lia). rewrite R. clear R.
   apply (list_pdu_size (mtu_of st) (nlen (a_type a0) + 2)); try lia.
-  - rewrite map_length. apply filter_firstn_length.
+  - rewrite map_length. apply take_while_firstn_length.
   - intros it Hin. apply in_map_iff in Hin as (a & <- & Hin).
-    apply filter_In in Hin as [_ Hin]. apply N.eqb_eq in Hin.
+    apply take_while_in in Hin as [_ Hin]. apply N.eqb_eq in Hin.
     unfold enc_hv. cbn [fst snd]. nl. lia.
 Qed.
 
@@ -534,9 +548,9 @@ Proof.
     rewrite <- El. apply fits_one. unfold att_size, encode. nl.
     assert (forall x, 1 + (1 + x) = 2 + x) as R by (intros; lia). rewrite R. clear R.
     apply (list_pdu_size (mtu_of st) (nlen (a_uuid a0) + 5)); try lia.
-    + rewrite map_length. apply filter_firstn_length.
+    + rewrite map_length. etransitivity; [apply filter_len_le|apply take_while_firstn_length].
     + intros it Hin. apply in_map_iff in Hin as (a & <- & Hin).
-      apply filter_In in Hin as [_ Hin]. apply andb_true_iff in Hin as [H1 H2]. apply N.eqb_eq in H1.
+      apply filter_In in Hin as [Hin H2]. apply take_while_in in Hin as [_ H1]. apply N.eqb_eq in H1.
       unfold enc_hv, payload. cbn [fst snd]. destruct (a_kind a); try discriminate. nl. lia.
   - destruct (bytes_eqb ty (uuid16 10242)); [|apply fits_err, Hm].
     match goal with |- context [match ?l with [] => _ | _ => _ end] => destruct l eqn:El end; [apply fits_err, Hm|].
@@ -672,6 +686,14 @@ Proof.
   apply inc_cons_inv in H as (H1 & H2 & H3 & H4). apply inc_cons; try assumption. apply IH, H4.
 Qed.
 
+Lemma inc_take_while {A} (g : A -> N) (f : A -> bool) s e : forall l lo,
+  increasing_in lo s e (map g l) = true -> increasing_in lo s e (map g (take_while f l)) = true.
+Proof.
+  induction l as [|x r IH]; intros lo H; cbn [take_while map]; [reflexivity|].
+  cbn [map] in H. destruct (f x); [|reflexivity].
+  cbn [map]. apply inc_cons_inv in H as (H1 & H2 & H3 & H4). apply inc_cons; try assumption. apply IH, H4.
+Qed.
+
 Lemma sorted_weaken lo lo' db : lo <= lo' -> sorted_from lo' db = true -> sorted_from lo db = true.
 Proof.
   destruct db as [|a r]; cbn [sorted_from]; [reflexivity|]. intros Hle H.
@@ -708,12 +730,12 @@ Proof.
   apply uuid_len_cases in Hu.
   pose proof (by_range_inc s e _ Hsort) as Hinc. rewrite E in Hinc.
   unfold list_rsp_ok. repeat (apply andb_true_iff; split).
-  - rewrite map_map. cbn [fst]. apply inc_filter, inc_firstn, Hinc.
+  - rewrite map_map. cbn [fst]. apply inc_take_while, inc_firstn, Hinc.
   - apply forallb_forall. intros it Hin. apply in_map_iff in Hin as (a & <- & Hin).
-    apply filter_In in Hin as [_ Hin]. apply N.eqb_eq in Hin. cbn [snd]. apply N.eqb_eq.
+    apply take_while_in in Hin as [_ Hin]. apply N.eqb_eq in Hin. cbn [snd]. apply N.eqb_eq.
     destruct Hu as [Hu|Hu]; rewrite Hin, Hu; reflexivity.
   - assert (1 <= (mtu_of st - 2) / (nlen (a_type a0) + 2)) as H1 by (destruct Hu as [Hu|Hu]; rewrite Hu; lia).
-    destruct (firstn_pos_cons _ a0 r H1) as [r' ->]. cbn [filter]. rewrite N.eqb_refl. reflexivity.
+    destruct (firstn_pos_cons _ a0 r H1) as [r' ->]. cbn [take_while]. rewrite N.eqb_refl. reflexivity.
 Qed.
 
 Lemma fbtv_match_inc v st ty vr s e : forall attrs items lo,
@@ -769,9 +791,9 @@ Proof.
   - match goal with |- context [match ?l with [] => _ | _ => _ end] => destruct l eqn:El end; [repeat constructor|].
     rewrite <- El. constructor; [|constructor]. unfold list_rsp_ok.
     repeat (apply andb_true_iff; split).
-    + rewrite map_map. cbn [fst]. apply inc_filter, inc_firstn, Hinc.
+    + rewrite map_map. cbn [fst]. apply inc_filter, inc_take_while, inc_firstn, Hinc.
     + apply forallb_forall. intros it Hin. apply in_map_iff in Hin as (a & <- & Hin).
-      apply filter_In in Hin as [_ Hin]. apply andb_true_iff in Hin as [H1 H2]. apply N.eqb_eq in H1.
+      apply filter_In in Hin as [Hin H2]. apply take_while_in in Hin as [_ H1]. apply N.eqb_eq in H1.
       cbn [snd]. apply N.eqb_eq. unfold payload. destruct (a_kind a); try discriminate. nl. lia.
     + rewrite El. reflexivity.
   - destruct (bytes_eqb ty (uuid16 10242)); [|repeat constructor].
